@@ -559,6 +559,8 @@ class Interp(ExprMixin, CallMixin):
         if value and isinstance(cond, Sym) and cond.op == 'booland':
             for a in cond.args:
                 self.assume(a, True, fr)
+        if isinstance(cond, Sym) and cond.op == 'cmp' and cond.args[2] is None and ((value and cond.args[0] == 'is not') or (not value and cond.args[0] == 'is')):
+            fr.nonempty.add('#notnone %s' % _show(cond.args[1]))
         if isinstance(cond, Sym) and cond.op == 'cmp' and ((value and cond.args[0] == 'in') or (not value and cond.args[0] == 'not in')):
             # ``key in table`` holds on this branch: the look-up table[key] finds it
             fr.nonempty.add('#key of %s' % _show(cond.args[1]))
